@@ -108,7 +108,8 @@ def emit_scripts(ctx):
 
 
 def signature(reason):
-    return "C10:" + reason.replace("/", ":", 1)
+    """reason = '<call>/<what>[@<where in the record>]' -> 'C10:<call>:<what>'"""
+    return "C10:" + reason.split("@")[0].replace("/", ":", 1)
 
 
 def harness_failure(ctx, what, rc, out, tail, payload):
@@ -216,7 +217,10 @@ def run(ctx):
 
     def mc_thread():
         try:
-            model_check(ctx, thorough)
+            # VERIF_C10_SKIP_MC=1: development switch for trying source mutants quickly (the
+            # specification does not depend on the tree); such a run writes no usable evidence
+            if os.environ.get("VERIF_C10_SKIP_MC") != "1":
+                model_check(ctx, thorough)
         except BaseException as e:  # noqa: BLE001 - re-raised in the main thread
             mc_err.append(e)
     strides = []
